@@ -62,7 +62,33 @@ func definiteAssign(w *World, f *ssa.Function, depth int) map[string]assigned {
 			if _, isFA := x.Addr.(*ssa.FieldAddr); !isFA {
 				return
 			}
-			if onAllPaths(in) {
+			okAll := onAllPaths(in)
+			if !okAll && isNilConst(x.Val) {
+				// "if c.f != nil { ...; c.f = nil }": the paths around the store are those on which the field is nil already
+				if fa, isFA := x.Addr.(*ssa.FieldAddr); isFA {
+					fv := fieldVar(fa.X.Type(), fa.Field)
+					cut := cutEdges(f, func(cond ssa.Value, truth bool) bool {
+						b, ok := cond.(*ssa.BinOp)
+						if !ok || (b.Op != token.EQL && b.Op != token.NEQ) {
+							return false
+						}
+						var other ssa.Value
+						if isLoadOfField(b.X, fv) {
+							other = b.Y
+						} else if isLoadOfField(b.Y, fv) {
+							other = b.X
+						} else {
+							return false
+						}
+						// the edge on which the field is known nil
+						return isNilConst(other) && truth == (b.Op == token.EQL)
+					})
+					if !pathExists(f, nil, isReturnInstr, func(y ssa.Instruction) bool { return y == in }, cut) {
+						okAll = true
+					}
+				}
+			}
+			if okAll {
 				out[p] = assigned{path: p, val: x.Val, fn: f, store: in}
 				// a whole struct stored at once (c.writer = responseWriter{...}): every sub-field is assigned, with
 				// the value the literal gave it or the zero value
@@ -551,8 +577,9 @@ func ruleC10Fresh(r *Run) {
 		detail := "fresh on every path"
 		for _, alt := range alts {
 			if alt.Val.Unknown != "" {
-				okF, detail = false, "cannot evaluate: "+alt.Val.Unknown
-				break
+				// not a sequence this engine can state (e.g. collected over a loop): the provenance clause above decides
+				detail = "decided by provenance (sequence evaluation: " + alt.Val.Unknown + ")"
+				continue
 			}
 			if len(alt.Val.Atoms) > 0 && !alt.Val.Fresh {
 				okF, detail = false, "the returned list aliases "+alt.Val.AliasOf
